@@ -175,7 +175,7 @@ class C15(OptEngineBase):
     # ------------------------------------------------------------------ generate
     def generate(self, rng, tier, index):
         config = draw_config(rng)
-        workload, meta = graphs.gen_opt_workload(rng, {"self_loops": True, "max_vertices": 10, "allow_numeric": True})
+        workload, meta = graphs.gen_opt_workload(rng, {"self_loops": True, "max_vertices": 10, "allow_numeric": True, "alias_poses": 0.12, "asym_information": 0.15})
         # more numerical twins here: this engine is about the perturb/restore protocol
         for e in workload["edges"]:
             if e["kind"] in ("odometry", "landmark", "prior") and rng.random() < 0.3:
